@@ -662,21 +662,52 @@ bool Interpret::getAssignment() const {
 }
 
 namespace { // Helper for get-value command
+// The AST keeps symbol names without their bars: print them as any other symbol is printed
+std::string printedSymbol(char const * name) { return Logic::protectName(name, false); }
+
+void printAstSortNode(ASTNode const & sortNode) {
+    if (sortNode.getType() == LID_T) {
+        std::cout << '(';
+        bool first = true;
+        for (ASTNode const * child : *sortNode.children) {
+            if (not first) { std::cout << ' '; }
+            first = false;
+            printAstSortNode(*child);
+        }
+        std::cout << ')';
+    } else if (sortNode.children and not sortNode.children->empty()) {
+        std::cout << "(_ " << printedSymbol(sortNode.getValue());
+        for (ASTNode const * index : *sortNode.children) { std::cout << ' ' << index->getValue(); }
+        std::cout << ')';
+    } else {
+        std::cout << printedSymbol(sortNode.getValue());
+    }
+}
+
+// identifier or (as identifier sort)
+void printAstQualifiedIdentifier(ASTNode const & node) {
+    if (node.getType() == AS_T) {
+        std::cout << "(as " << printedSymbol((*node.children)[0]->getValue()) << ' ';
+        printAstSortNode(*(*node.children)[1]);
+        std::cout << ')';
+    } else {
+        std::cout << printedSymbol(node.getValue());
+    }
+}
+
 void printAstTermNode(ASTNode const & astNode) {
     ASTType t = astNode.getType();
     if (t == TERM_T) {
         const char* name = (**(astNode.children->begin())).getValue();
         std::cout << name;
     } else if (t == QID_T) {
-            ASTNode const * symbolNode = (*(astNode.children->begin()));
-            char const * name = symbolNode->getValue();
-            std::cout << name;
+        printAstQualifiedIdentifier(**(astNode.children->begin()));
     } else if ( t == LQID_T ) {
         // Multi-argument term
         auto node_iter = astNode.children->begin();
-        const char* name = (**node_iter).getValue(); node_iter++;
         std::cout << "(";
-        std::cout << name << " ";
+        printAstQualifiedIdentifier(**node_iter); node_iter++;
+        std::cout << " ";
         bool first = true;
         for (; node_iter != astNode.children->end(); node_iter++) {
             if (not first) {
@@ -699,7 +730,7 @@ void printAstTermNode(ASTNode const & astNode) {
         std::cout << " " << name_attr.getValue();
         ASTNode const & sym = **(name_attr.children->begin());
         assert(sym.getType() == SYM_T or sym.getType() == QSYM_T);
-        std::cout << " " << sym.getValue();
+        std::cout << " " << printedSymbol(sym.getValue());
         std::cout << ')';
     } else if (t == LET_T) {
         std::cout << "(let ";
@@ -710,7 +741,7 @@ void printAstTermNode(ASTNode const & astNode) {
         for (ASTNode const* vb : *(**ch).children) {
             if (not first) { std::cout << ' '; };
             first = false;
-            std::cout << "(" << vb->getValue() << " ";
+            std::cout << "(" << printedSymbol(vb->getValue()) << " ";
             printAstTermNode(**vb->children->begin());
             std::cout << ")";
         }
